@@ -52,3 +52,51 @@ Lemma repaired_on_the_same_input :
     reload idh mut_s0 (Valid f12_new (bo_of [] [])) 1 = (s2, ROk true, 2, new) /\
     config s2 = f12_new /\ pools s2 = [((0, 0), (11, 1))] /\ new = [(1, ((0, 0), 11))].
 Proof. eexists. eexists. split; [vm_compute; reflexivity|]. split; [vm_compute; reflexivity|]. auto. Qed.
+
+
+(** ---------------------------------------------------------------------------------------------------------
+    Mutant 2: the idle-in-transaction timeout is looked up in CONFIG at every wait of the transaction loop
+    instead of once per checkout.  [idle_live] is [OIdle]'s decision with the live value. *)
+Definition idle_live (w : world) (c : cid) (ms : nat) : obs :=
+  match cl_lookup c (clients w) with
+  | Some x => match cheld x with
+              | Some _ => let t := cidle (config (st w)) in
+                          if negb (t =? 0) && (t <=? ms) then ObTimedOut else ObIdled
+              | None => ObNop
+              end
+  | None => ObNop
+  end.
+
+Definition idle_new : cfg := {| cgen := 1; cidle := 150; cpools := [(0, (10, [0]))] |}.   (* f12_old + a 150 ms timeout *)
+(** start without a timeout; the client opens a transaction; a valid reload sets the timeout to 150 ms *)
+Definition idle_ops : list op :=
+  [OReload (Valid f12_old (bo_of [] [])); OConnect 0 0 0; OBegin 0; OReload (Valid idle_new (bo_of [] []))].
+
+(** the open transaction is silent for 400 ms: the model (snapshot) lets it go on, the mutant breaks it;
+    the NEXT transaction times out in both *)
+Lemma idle_live_refuted :
+  exists w, fst (run idh empty_world idle_ops) = w /\
+            snd (run idh empty_world idle_ops) = [ObReload (ROk true); ObConnected 0; ObBegun 0 0 false; ObReload (ROk true)] /\
+            snd (step idh w (OIdle 0 400)) = ObIdled /\ idle_live w 0 400 = ObTimedOut /\
+            snd (run idh w [OEnd 0; OBegin 0; OIdle 0 400]) = [ObEnded; ObBegun 0 0 false; ObTimedOut].
+Proof. eexists. split; [reflexivity|]. vm_compute. auto. Qed.
+
+(** ---------------------------------------------------------------------------------------------------------
+    Mutant 3: a reload keeps a paused pool registered although the new file no longer has it. *)
+Definition keep_paused (paused : list key) (old new : pools_t) : pools_t :=
+  new ++ filter (fun e => existsb (key_eqb (fst e)) paused && match plookup (fst e) new with Some _ => false | None => true end) old.
+
+Definition two_pools : cfg := {| cgen := 1; cidle := 0; cpools := [(0, (10, [0])); (1, (20, [0]))] |}.
+Definition one_pool : cfg := {| cgen := 1; cidle := 0; cpools := [(1, (20, [0]))] |}.               (* pool 0 removed *)
+Definition pause_ops : list op :=
+  [OReload (Valid two_pools (bo_of [] [])); OConnect 0 0 0; OPause (0, 0); OReload (Valid one_pool (bo_of [] [])); OBegin 0; OConnect 1 0 0].
+
+(** the model: the paused pool is removed and resumed, its client is told "No pool configured" (not blocked,
+    not served), a new login is refused; under the mutant POOLS still resolves (0,0) *)
+Lemma keep_paused_refuted :
+  exists w, run idh empty_world pause_ops =
+              (w, [ObReload (ROk true); ObConnected 0; ObAdmin true; ObReload (ROk true); ObNoPool; ObNoPool]) /\
+            paused w = [] /\ begin_txn (st w) 0 0 = None /\
+            plookup (0, 0) (keep_paused [(0, 0)] [((0, 0), (10, 0)); ((1, 0), (20, 1))] (pools (st w))) = Some (10, 0) /\
+            clookup 0 (cpools (config (st w))) = None.
+Proof. eexists. split; [vm_compute; reflexivity|]. vm_compute. auto. Qed.
